@@ -30,7 +30,8 @@ func (k Keeper) GetExchangedPrice(
 	rawDenom := pricing.Price.GetDenomByIndex(0)
 
 	rawPrice := pricing.Price.AmountOf(rawDenom)
-	price := sdk.NewDecFromInt(rawPrice).Mul(discountByTime).Mul(discountByVolume)
+	// truncate, never round up: the fee is the floor of the exact discounted price
+	price := sdk.NewDecFromInt(rawPrice).MulTruncate(discountByTime).MulTruncate(discountByVolume)
 
 	realPrice := price
 	if baseDenom != rawDenom {
